@@ -158,14 +158,12 @@ def kJSelQ : P String := do
   pure s!"{i} {i}"
 
 def kJDens : P String := do
-  let n ← nat; let ps ← many n fl; let ds ← many n fl; done
-  let d := joinDensity ps ds
-  pure s!"{sf d} {sf d}"
+  let n ← nat; let ps ← many n fl; let ds ← many n fl; let dd ← many n fl; done
+  pure s!"{sf (joinDensity ps ds)} {sf (joinDensity ps dd)}"
 
 def kJDensQ : P String := do
-  let n ← nat; let ps ← many n rat; let ds ← many n rat; done
-  let d := joinDensity ps ds
-  pure s!"{showRat d} {showRat d}"
+  let n ← nat; let ps ← many n rat; let ds ← many n rat; let dd ← many n rat; done
+  pure s!"{showRat (joinDensity ps ds)} {showRat (joinDensity ps dd)}"
 
 def kFInfo : P String := do
   let ce ← v3; let r ← fl; let p ← v3; done
